@@ -38,6 +38,7 @@ type extraFile struct {
 	MTime int64  `json:"mtime"`
 	Nanos int64  `json:"nanos,omitempty"` // sub-second part of the modification time
 	Dir   bool   `json:"dir,omitempty"`   // a directory: created, and given this time after everything below it exists
+	Link  string `json:"link,omitempty"`  // a symbolic link with this target
 }
 
 type pkgDesc struct {
@@ -388,6 +389,12 @@ func writeExtraFiles(fs []extraFile) {
 	}()
 	for _, f := range fs {
 		if f.Dir {
+			continue
+		}
+		if f.Link != "" {
+			must(os.MkdirAll(filepath.Dir(f.Path), 0o755))
+			os.Remove(f.Path)
+			must(os.Symlink(f.Link, f.Path))
 			continue
 		}
 		b, _ := hex.DecodeString(f.Hex)
